@@ -151,10 +151,10 @@ func main() {
 	_ = logger.Init(logger.Logging{Env: "prod", Level: "fatal"})
 	thorough := ev.Thorough()
 	bound := 2
-	budget := 6 * time.Minute
+	budget := 12 * time.Minute
 	if thorough {
 		bound = 3
-		budget = 30 * time.Minute
+		budget = 60 * time.Minute
 	}
 	if rp := ev.Arg("--replay"); rp != "" {
 		replay(rp)
